@@ -35,9 +35,9 @@ def whileLoop {ρ σ : Type} : Nat → (σ → Bool) → (σ → Flow ρ σ) →
     else .next s
 
 /-- the index values of `for i := range xs` -/
-def idxRange {α : Type} (xs : List α) : List Int := (List.range xs.length).map Int.ofNat
+def idxRange {α : Type} (xs : List α) : List Int := (List.range xs.length).map (fun (n : Nat) => (n : Int))
 
-def len {α : Type} (l : List α) : Int := Int.ofNat l.length
+def len {α : Type} (l : List α) : Int := (l.length : Int)
 def listAt {α : Type} [Inhabited α] (l : List α) (i : Int) : α := l.getD i.toNat default
 def byteAt (s : Str) (i : Int) : Char := s.getD i.toNat ' '
 def sliceFrom {α : Type} (l : List α) (i : Int) : List α := l.drop i.toNat
